@@ -178,13 +178,13 @@ def encode(c):
     if c['reach']:
         fam, nh, nl = c['reach']
         a, s = nlrienc.AFISAFI[fam]
-        v = struct.pack('>HBB', a, s, len(nh)) + nh + b'\x00' + b''.join(nlrienc.encode(x) for x in nl)
+        v = struct.pack('>HBB', a, s, len(nh)) + nh + b'\x00' + b''.join(nlrienc.encode(x) for x in nl) + c.get('reach_garbage', b'')
         attrs += tlv(0x80, 14, v)
         triples.append((0x90 if len(v) > 255 else 0x80, 14, len(v)))
     if c['unreach']:
         fam, nl = c['unreach']
         a, s = nlrienc.AFISAFI[fam]
-        v = struct.pack('>HB', a, s) + b''.join(nlrienc.encode(x) for x in nl)
+        v = struct.pack('>HB', a, s) + b''.join(nlrienc.encode(x) for x in nl) + c.get('unreach_garbage', b'')
         attrs += tlv(0x80, 15, v)
         triples.append((0x90 if len(v) > 255 else 0x80, 15, len(v)))
     body = struct.pack('>H', len(wd)) + wd + struct.pack('>H', len(attrs)) + attrs + ann
